@@ -560,7 +560,7 @@ void gen(uint64_t seed, int tier, sim::Plan &p) {
         sim::Op o; o.thr = 0; o.kind = OP_LAUNCH; o.a = mine[k] - 1; p.ops.push_back(o);
         if (r.chance(0.2)) { sim::Op s; s.thr = 0; s.kind = r.chance(0.5) ? OP_YIELD : OP_SLEEP; s.a = r.pick(std::vector<int64_t>{1000, 1000000, 1000000000}); p.ops.push_back(s); }
         if (r.chance(0.12)) {
-            if (r.chance(0.3)) { sim::Op t; t.thr = 0; t.kind = OP_SET_TIMEOUT; t.a = r.pick(std::vector<int64_t>{1, 1000000, 500000000, 5000000000ll}); p.ops.push_back(t); }
+            if (r.chance(0.3)) { sim::Op t; t.thr = 0; t.kind = OP_SET_TIMEOUT; t.a = r.pick(std::vector<int64_t>{1, 1000000, 500000000, 5000000000ll, /* 'practically for ever': more than INT64_MAX ns */ (int64_t)(0x8000000000000000ull + 3600000000000ull), (int64_t)10000000000000000000ull}); p.ops.push_back(t); }
             sim::Op j; j.thr = 0; j.kind = OP_JOIN_ALL; p.ops.push_back(j);
             join_all_placed = true;
         }
@@ -576,7 +576,7 @@ void gen(uint64_t seed, int tier, sim::Plan &p) {
     for (size_t k = order.size(); k > 1; k--) std::swap(order[k - 1], order[r.below(k)]);
     for (int i : order) {
         if (r.chance(0.25)) {
-            if (r.chance(0.3)) { sim::Op t; t.thr = 0; t.kind = OP_SET_TIMEOUT; t.a = r.pick(std::vector<int64_t>{0, 1000000, 5000000000ll}); p.ops.push_back(t); }
+            if (r.chance(0.3)) { sim::Op t; t.thr = 0; t.kind = OP_SET_TIMEOUT; t.a = r.pick(std::vector<int64_t>{0, 1000000, 5000000000ll, (int64_t)10000000000000000000ull}); p.ops.push_back(t); }
             sim::Op j; j.thr = 0; j.kind = OP_JOIN_ALL; p.ops.push_back(j);
             join_all_placed = true;
         }
@@ -608,7 +608,7 @@ std::string op_text(const sim::Op &op) {
         case OP_JOIN: snprintf(b, sizeof b, "thread %d: aws_thread_join(thread %lld)", op.thr, (long long)(op.a % MAXT) + 1); break;
         case OP_DETACH: snprintf(b, sizeof b, "main: aws_thread_clean_up(thread %lld) without joining it (detach)", (long long)(op.a % MAXT) + 1); break;
         case OP_JOIN_ALL: snprintf(b, sizeof b, "thread %d: aws_thread_join_all_managed()", op.thr); break;
-        case OP_SET_TIMEOUT: snprintf(b, sizeof b, "main: set managed join timeout %lld ns", (long long)op.a); break;
+        case OP_SET_TIMEOUT: snprintf(b, sizeof b, "main: set managed join timeout %llu ns", (unsigned long long)op.a); break;
         case OP_SLEEP: snprintf(b, sizeof b, "thread %d: sleep(%lld ns virtual)", op.thr, (long long)op.a); break;
         case OP_YIELD: snprintf(b, sizeof b, "thread %d: yield", op.thr); break;
         case OP_ATEXIT: snprintf(b, sizeof b, "thread %d: aws_thread_current_at_exit(next tag)%s%s", op.thr, op.a ? " [its callback registers one more callback]" : "", op.b % 4 ? " [the identical registration is repeated]" : ""); break;
